@@ -490,6 +490,45 @@ def r6_wiring(L, repo):
                   ["self.trx_list.find_trx(remote_addr, base_port)"], parent_def, line=c.lineno)
 
 
+def r7_trx_def(L, repo):
+    """R7 (port plan of transceivers from --trx definitions): the child index that shifts the control/data ports by
+    2 per child is the whole decimal number after '/', the port the whole number after ':' (documented form
+    [NAME@]ADDR:PORT[/IDX]). Application.trx_def is folded (regular expression included: constant pattern, constant
+    subject) for witness definitions with 0-, 1-, 2- and 3-digit indexes and with/without a name."""
+    from consteval import Ev, Unknown, Raised
+    FA = rel("fake_trx")
+    ci = repo.need_class("fake_trx", "Application")
+    fd = ci.methods.get("trx_def")
+    if fd is None:
+        raise AnalysisError("Application.trx_def vanished")
+    L.unit(FA)
+    L.fn(FA, "Application.trx_def")
+    ps = [p_ for p_ in params(fd) if p_ not in ("self", "cls")]
+    if len(ps) != 1:
+        raise AnalysisError("Application.trx_def signature changed")
+    W = [("127.0.0.1:5700", (None, "127.0.0.1", 5700, 0)),
+         ("127.0.0.1:5700/1", (None, "127.0.0.1", 5700, 1)),
+         ("127.0.0.1:5700/9", (None, "127.0.0.1", 5700, 9)),
+         ("127.0.0.1:5700/10", (None, "127.0.0.1", 5700, 10)),
+         ("bts@127.0.0.1:5700/12", ("bts", "127.0.0.1", 5700, 12)),
+         ("x@h:65000/123", ("x", "h", 65000, 123)),
+         ("ms2@10.0.0.2:6700", ("ms2", "10.0.0.2", 6700, 0)),
+         ("h:6700/0", (None, "h", 6700, 0))]
+    n = 0
+    for w, want in W:
+        try:
+            got = Ev(repo, ci.mod, self_cls=ci).call_func(fd, ci.mod, [(ps[0], w)])
+            got = tuple(got) if isinstance(got, (list, tuple)) else got
+        except Raised as e:
+            got = "raises %s" % e.cls
+        except Unknown as e:
+            raise AnalysisError("Application.trx_def does not fold for %r: %s" % (w, e))
+        n += 1
+        L.require("C12.R7", FA, "Application.trx_def", "--trx %s is read as (name, address, base port, child index)" % w,
+                  want, got, line=fd.lineno)
+    L.floor("C12.R7", "--trx witness definitions folded", n, 8)
+
+
 def run(L, tier):
     repo = Repo(L.repo)
     L.unit(F)
@@ -500,3 +539,4 @@ def run(L, tier):
     L.stage(r4_power_cmds, L, repo)
     L.stage(r5_ports, L, repo)
     L.stage(r6_wiring, L, repo)
+    L.stage(r7_trx_def, L, repo)
